@@ -650,7 +650,7 @@ int64_t carquet_rle_decode_levels_prefixed(
 
     /* Read 4-byte length prefix (little-endian) */
     uint32_t rle_length = carquet_read_u32_le(input);
-    if (4 + rle_length > input_size) {
+    if (rle_length > input_size - 4) {
         if (bytes_consumed) *bytes_consumed = 0;
         return -1;
     }
@@ -659,7 +659,7 @@ int64_t carquet_rle_decode_levels_prefixed(
         input + 4, rle_length, bit_width, output, max_values);
 
     if (bytes_consumed) {
-        *bytes_consumed = 4 + rle_length;
+        *bytes_consumed = (size_t)4 + rle_length;
     }
 
     return count;
